@@ -300,6 +300,7 @@ PRE = os.path.join(core.HARNESS, "sched", "zv_pthread.h")
 SHARED_WITH_DICT = True
 
 SHARED_KEYS = [   # (substring of the oracle line, stable key)
+    ("shared pool resized by a context", "C12-sharedpool-resized-by-context"),
     ("refThreadPool", "C12-refThreadPool-ignored-after-first-mt-frame"),
     ("abandoned session's jobs still run", "mt-abandoned-session-dict-freed"),
     ("use after free", "C12-sharedpool-free-midframe"),
@@ -326,6 +327,13 @@ def shared_corpus():
         (1, ["P1.S3.c1700.e", "P1.S1.c600.z.e"]),                           # grow the shared pool beyond its capacity from a context
         (2, ["P1.S2.c600.R.P0.c600.e", "P1.S1.c600.e"]),                    # abandon a frame on the shared pool, go private
         (1, ["P1.S3.L.c1700.e", "P1.S2.L.c1200.R.c600.e"]),                 # long-distance matching: jobs wait for each other's serial section, 1 thread
+        # round 3 (106ca1a: a context no longer resizes a pool it was given): more workers asked than the pool has threads -
+        # the jobs the pool refuses are retried and every frame completes; the pool keeps its size
+        (1, ["P1.S8.c2400.e"]),
+        (1, ["P1.S8.c1700.e", "P1.S4.c1700.f.c600.e"]),
+        (1, ["P1.S2.c600.e.S8.c1700.e"]),                                   # the nbWorkers change that used to grow the caller's pool to 8 threads
+        (3, ["P1.S3.c1200.e.S1.c600.e", "P1.S3.c1700.e"]),                  # ... and the one that used to throttle the other context to 1 thread
+        (2, ["P1.S8.c1700.F.P1.S1.c600.e", "P1.S8.c1200.R.c600.e"]),
     ]
     if SHARED_WITH_DICT:
         C += [(1, ["S1.D.c600.F"]), (1, ["S1.D.c600.R.D.c600.e"]), (2, ["P1.S1.D.c600.R.D.c600.e", "P1.S1.c600.e"])]
@@ -343,7 +351,7 @@ def gen_shared(rng):
             nonlocal shared, nbw
             if rng.random() < 0.85 and "K" not in ops:
                 ops.append("P1"); shared = True
-            nbw = rng.choice([1, 1, 2, 3]); ops.append("S%d" % nbw)
+            nbw = rng.choice([1, 1, 2, 3, 3, 4, 8]); ops.append("S%d" % nbw)
             if SHARED_WITH_DICT and rng.random() < 0.3:
                 ops.append("D")
             if rng.random() < 0.2:
@@ -375,7 +383,7 @@ def gen_shared(rng):
             elif y < 0.30 and "K" not in ops:
                 ops.append("P1"); shared = True
             elif y < 0.45:
-                nbw = rng.choice([1, 2, 3]); ops.append("S%d" % nbw)
+                nbw = rng.choice([1, 2, 3, 5, 8]); ops.append("S%d" % nbw)
             elif y < 0.5:
                 ops.append("z")
         progs.append(".".join(ops))
